@@ -100,11 +100,15 @@ type AAttr struct {
 	Dep  bool  `json:"dep"`
 	Depr bool  `json:"depr"`
 	Dflt *AVal `json:"dflt"`
+	Mods Seq[string] `json:"mods,omitempty"`
+	Desc string      `json:"desc,omitempty"`
 }
 
 type ALabel struct {
-	Dep  bool `json:"dep"`
-	Comp bool `json:"comp"`
+	Dep  bool        `json:"dep"`
+	Comp bool        `json:"comp"`
+	Mods Seq[string] `json:"mods,omitempty"`
+	Desc string      `json:"desc,omitempty"`
 }
 
 type ADep struct {
@@ -120,6 +124,8 @@ type ABlock struct {
 	Min    int         `json:"min"`
 	Max    int         `json:"max"`
 	Depr   bool        `json:"depr"`
+	Mods   Seq[string] `json:"mods,omitempty"`
+	Desc   string      `json:"desc,omitempty"`
 }
 
 type ABody struct {
@@ -129,6 +135,7 @@ type ABody struct {
 	Any    bool         `json:"any"`
 	Ext    AExt         `json:"ext"`
 	Link   bool         `json:"link"`
+	Desc   string       `json:"desc,omitempty"`
 }
 
 func (b *ABody) IsNil() bool { return b == nil || b.K == "nil" }
@@ -143,8 +150,9 @@ func (b *ABody) MarshalJSON() ([]byte, error) {
 		Any    bool               `json:"any"`
 		Ext    AExt               `json:"ext"`
 		Link   bool               `json:"link"`
+		Desc   string             `json:"desc,omitempty"`
 	}
-	p := plain{map[string]*AAttr(b.Attrs), map[string]*ABlock(b.Blocks), b.Any, b.Ext, b.Link}
+	p := plain{map[string]*AAttr(b.Attrs), map[string]*ABlock(b.Blocks), b.Any, b.Ext, b.Link, b.Desc}
 	if p.Attrs == nil {
 		p.Attrs = map[string]*AAttr{}
 	}
@@ -193,6 +201,17 @@ func avalFromRaw(x interface{}) *AVal {
 	return &v
 }
 
+func toMods(ms []string) lang.SemanticTokenModifiers {
+	out := lang.SemanticTokenModifiers{}
+	for _, m := range ms {
+		out = append(out, lang.SemanticTokenModifier(m))
+	}
+	if len(out) == 0 {
+		return nil
+	}
+	return out
+}
+
 // ---- abstract -> real schema ---------------------------------------------------------------
 
 var probeDesc = func(kind, name string) lang.MarkupContent { return lang.Markdown("desc:" + kind + ":" + name) }
@@ -207,6 +226,9 @@ func buildBody(b *ABody) *schema.BodySchema {
 	}
 	if b.Ext.Count || b.Ext.ForEach || b.Ext.Dyn {
 		bs.Extensions = &schema.BodyExtensions{Count: b.Ext.Count, ForEach: b.Ext.ForEach, DynamicBlocks: b.Ext.Dyn}
+	}
+	if b.Desc != "" {
+		bs.Description = lang.Markdown(b.Desc)
 	}
 	if b.Link {
 		bs.DocsLink = &schema.DocsLink{URL: "https://example.com/docs", Tooltip: "docs"}
@@ -230,6 +252,10 @@ func buildBody(b *ABody) *schema.BodySchema {
 		} else {
 			as.Constraint = schema.AnyExpression{OfType: cty.DynamicPseudoType}
 		}
+		if a.Desc != "" {
+			as.Description = lang.Markdown(a.Desc)
+		}
+		as.SemanticTokenModifiers = toMods(a.Mods)
 		if a.Dflt != nil && a.Dflt.K != "nil" && a.Dflt.K != "" {
 			if v, _, ok := avalCty(a.Dflt); ok && v != cty.NilVal {
 				as.DefaultValue = schema.DefaultValue{Value: v}
@@ -245,8 +271,16 @@ func buildBody(b *ABody) *schema.BodySchema {
 
 func buildBlock(t string, blk *ABlock) *schema.BlockSchema {
 	s := &schema.BlockSchema{MinItems: uint64(blk.Min), MaxItems: uint64(blk.Max), IsDeprecated: blk.Depr, Description: probeDesc("block", t)}
+	if blk.Desc != "" {
+		s.Description = lang.Markdown(blk.Desc)
+	}
+	s.SemanticTokenModifiers = toMods(blk.Mods)
 	for i, l := range blk.Labels {
-		s.Labels = append(s.Labels, &schema.LabelSchema{Name: fmt.Sprintf("l%d", i), IsDepKey: l.Dep, Completable: l.Comp, Description: probeDesc("label", fmt.Sprintf("%s.%d", t, i))})
+		ls := &schema.LabelSchema{Name: fmt.Sprintf("l%d", i), IsDepKey: l.Dep, Completable: l.Comp, Description: probeDesc("label", fmt.Sprintf("%s.%d", t, i)), SemanticTokenModifiers: toMods(l.Mods)}
+		if l.Desc != "" {
+			ls.Description = lang.Markdown(l.Desc)
+		}
+		s.Labels = append(s.Labels, ls)
 	}
 	s.Body = buildBody(blk.Body)
 	if len(blk.Deps) > 0 {
